@@ -711,8 +711,15 @@ class Scenario:
 
         def subset(links, flag_value=None):
             if flag_value is not None:  # a value-less attribute (";obs") read as carrying the empty string
-                links = [reflink.Link(l.href, tuple((k, flag_value if v is None else v) for k, v in l.params)) for l in links]
+                read = [reflink.Link(l.href, tuple((k, flag_value if v is None else v) for k, v in l.params)) for l in links]
+                if len(query) == 1:
+                    return [l for l, l2 in zip(links, read) if reflink.matches(l2, name, pat)]
+                return [l for l, l2 in zip(links, read) if all(reflink.matches(l2, *q.split("=", 1)) for q in query)]
             if len(query) == 1:
+                if pat == "*" and name != "href":
+                    # RFC 6690 section 4.1: "?foo=* matches a link-value that has a target attribute named foo",
+                    # whether or not it comes with a value (";obs")
+                    return [l for l in links if reflink.has(l, name)]
                 return [l for l in links if reflink.matches(l, name, pat)]
             # several parameters are outside RFC 6690 ("one parameter at a time"): statistic only
             return [l for l in links if all(reflink.matches(l, *q.split("=", 1)) for q in query)]
@@ -766,6 +773,9 @@ class Scenario:
             return
         missing, extra = sorted(exp - got), sorted(got - exp)
         detail = {"missing": [self.fmtk(k) for k in missing], "unexpected": [self.fmtk(k) for k in extra]}
+        if query and pat == "*" and name != "href" and not extra and got == {reflink.key(l) for l in all_links if reflink.matches(l, name, pat)}:
+            viol("wkc/filter/star-does-not-match-valueless-attribute", "?%s=* does not return the links that carry the attribute %r without a value" % (name, name), **detail)
+            return
         # -- classify by mechanism ---------------------------------------------------------------
         if any(rm for _l, rm in model):
             alt = {reflink.key(l) for l in subset([reflink.Link(h, tuple(a)) for h, a in listing_hrefs_if_prefix_joined_textually(self.sites[0])])}
